@@ -10,6 +10,20 @@
 (* distinct and non-zero; 0 stands for SQL NULL in a cell and for "zero    *)
 (* value / not filled" in a destination field.                             *)
 (*                                                                         *)
+(* The text of a `db` tag is a comma separated list: its first element is  *)
+(* the column name, whatever follows are options that other packages read  *)
+(* (db:"user_name,type=varchar,length=255" is the spelling of              *)
+(* lib/store/builder).  A tag is modelled as its token sequence: the       *)
+(* column id, then option tokens (8, 9: options; 0: an empty element, the  *)
+(* tag ends in a comma).  "by column name through db tags" means by the    *)
+(* FIRST token only (KeyOf): the spelling of the rest never changes the    *)
+(* outcome (TagOptionsIgnored).  A shape's spelling `tagsp` is "plain"     *)
+(* (db:"c"), "opts" (db:"c,type=..,length=.."), "comma" (db:"c,") or       *)
+(* "mixed" (field 1 opts, field 2 comma, field 3 plain).  Not modelled,    *)
+(* because the statement does not say: a tag whose name element is empty   *)
+(* (db:",opt") or "-" (to the code "-" is a column name like any other),   *)
+(* structs mixing tagged and untagged fields.                              *)
+(*                                                                         *)
 (* Allowed(case) is the SET of outcomes the statement permits:             *)
 (*   - single-row query on an empty result            -> {notfound}        *)
 (*   - struct, strict, fewer columns than fields      -> {error}           *)
@@ -34,7 +48,10 @@ CONSTANTS MaxF,      \* largest number of struct fields (<= 3)
           RowCounts, \* row counts offered, e.g. {0, 1, 3}
           PtrSets,   \* "all": every subset of fields may be pointers; "few": none / first / all
           Dests,     \* subset of {"one", "vals", "ptrs"}: *T, *[]T, *[]*T
-          Pres       \* how many elements a slice destination may already hold, e.g. {0, 1}
+          Pres,      \* how many elements a slice destination may already hold, e.g. {0, 1}
+          TagStyles, \* spellings of the db tags of a tagged shape: subset of {"plain","opts","comma","mixed"}
+          StyleCross \* what the spellings other than "plain" are combined with: "none" = pointer-free shapes and
+                     \* empty slices only, "ptrs" = every pointer set (empty slices), "all" = everything
 
 VARIABLES shape, picked, out
 vars == <<shape, picked, out>>
@@ -47,6 +64,18 @@ OrdTab == [S \in SUBSET (1..4) |-> UNION {SetToSeqs(T) : T \in (SUBSET S) \ {{}}
 Orderings(S) == OrdTab[S]
 
 PtrChoices(nf) == IF PtrSets = "all" THEN SUBSET (1..nf) ELSE {{}, {1}, 1..nf}
+
+(* ---------------------------------------------------------------- tags *)
+
+OptTokens(style) == CASE style = "opts"  -> <<8, 9>>
+                      [] style = "comma" -> <<0>>
+                      [] OTHER           -> <<>>
+MixedStyles == <<"opts", "comma", "plain">>
+StyleOf(sp, i) == IF sp = "mixed" THEN MixedStyles[((i - 1) % 3) + 1] ELSE sp
+\* the tag of field i: its column's name first, then the options of its spelling
+TagOf(sp, i) == <<i>> \o OptTokens(StyleOf(sp, i))
+\* the column a tag names: the element before the first comma
+KeyOf(tag) == tag[1]
 
 (* ---------------------------------------------------------------- cases *)
 
@@ -62,12 +91,12 @@ ColLists(nf, tg, e) ==
 
 \* nf counts the LEAF fields (an embedded struct is flattened); the last embn of them live inside
 \* the embedded struct (embn = 0 iff emb = "none"), so the struct has nf - embn + 1 top-level fields
-StructCase(nf, tg, e, en, ps, d, cs, n, nl, st, pre) ==
-  [prim |-> FALSE, nf |-> nf, tagged |-> tg, emb |-> e, embn |-> en, ptrs |-> ps, dest |-> d,
+StructCase(nf, tg, sp, e, en, ps, d, cs, n, nl, st, pre) ==
+  [prim |-> FALSE, nf |-> nf, tagged |-> tg, tagsp |-> sp, emb |-> e, embn |-> en, ptrs |-> ps, dest |-> d,
    cols |-> cs, nrows |-> n, null |-> nl, strict |-> st, pre |-> pre]
 
 PrimCase(d, cid, n, nl, st, pre) ==
-  [prim |-> TRUE, nf |-> 1, tagged |-> FALSE, emb |-> "none", embn |-> 0, ptrs |-> {}, dest |-> d,
+  [prim |-> TRUE, nf |-> 1, tagged |-> FALSE, tagsp |-> "none", emb |-> "none", embn |-> 0, ptrs |-> {}, dest |-> d,
    cols |-> <<cid>>, nrows |-> n, null |-> nl, strict |-> st, pre |-> pre]
 
 (* ---------------------------------------------------------------- the mapping *)
@@ -77,7 +106,9 @@ At(c, r, j) == IF r = 1 /\ c.null = j THEN 0 ELSE Cell(c.cols[j], r)
 
 Pos(c, id) == CHOOSE j \in 1..Len(c.cols) : c.cols[j] = id
 
-ByName(c, r) == [i \in 1..c.nf |-> IF i \in Range(c.cols) THEN At(c, r, Pos(c, i)) ELSE 0]
+\* field i receives the cell of the column its tag names (only tagged shapes are filled by name)
+Key(c, i) == KeyOf(TagOf(c.tagsp, i))
+ByName(c, r) == [i \in 1..c.nf |-> IF Key(c, i) \in Range(c.cols) THEN At(c, r, Pos(c, Key(c, i))) ELSE 0]
 ByPos(c, r)  == [i \in 1..c.nf |-> IF i <= Len(c.cols) THEN At(c, r, i) ELSE 0]
 
 \* rows the API looks at
@@ -88,7 +119,7 @@ Filled(c, byname) == [r \in 1..UsedRows(c) |-> IF byname THEN ByName(c, r) ELSE 
 \* does the NULL cell land in a destination field (it is in row 1, which every API reads)?
 NullHits(c, byname) ==
   /\ c.null # 0
-  /\ IF byname THEN c.cols[c.null] \in 1..c.nf ELSE c.null <= c.nf
+  /\ IF byname THEN \E i \in 1..c.nf : Key(c, i) = c.cols[c.null] ELSE c.null <= c.nf
 
 Outcome(k, rows) == [k |-> k, rows |-> rows]
 ErrorOut    == Outcome("error", <<>>)
@@ -123,7 +154,9 @@ Allowed(c) == UNION {WithPre(c, o) : o \in AllowedFresh(c)}
 RowData(c) == [r \in 1..c.nrows |-> [j \in 1..Len(c.cols) |-> At(c, r, j)]]
 
 Observation(c) ==
-  [op |-> "query", prim |-> c.prim, nf |-> c.nf, tagged |-> c.tagged, emb |-> c.emb, embn |-> c.embn, ptrs |-> c.ptrs,
+  [op |-> "query", prim |-> c.prim, nf |-> c.nf, tagged |-> c.tagged, tagsp |-> c.tagsp,
+   tags |-> (IF c.tagged THEN [i \in 1..c.nf |-> TagOf(c.tagsp, i)] ELSE <<>>),
+   emb |-> c.emb, embn |-> c.embn, ptrs |-> c.ptrs,
    dest |-> c.dest, cols |-> c.cols, data |-> RowData(c), strict |-> c.strict, pre |-> c.pre,
    allow |-> Allowed(c)]
 
@@ -142,13 +175,17 @@ PickShape ==
   /\ \/ \E nf \in 1..MaxF, tg \in BOOLEAN, e \in {"none", "val", "ptr"}, d \in Dests, st \in BOOLEAN, n \in RowCounts, pre \in Pres :
            /\ (e # "none" => nf >= 2)
            /\ (d = "one" => pre = 0)
-           /\ \E ps \in PtrChoices(nf), en \in 0..2 :
+           /\ \E ps \in PtrChoices(nf), en \in 0..2, sp \in (IF tg THEN TagStyles ELSE {"none"}) :
                  /\ (e = "none" <=> en = 0) /\ en <= nf
-                 /\ shape' = [prim |-> FALSE, nf |-> nf, tagged |-> tg, emb |-> e, embn |-> en, ptrs |-> ps,
+                 /\ (sp = "mixed" => nf >= 2)       \* with one field "mixed" is "opts"
+                 /\ (sp \notin {"plain", "none"} =>
+                        /\ (StyleCross = "none" => ps = {})
+                        /\ (StyleCross # "all" => pre = 0))
+                 /\ shape' = [prim |-> FALSE, nf |-> nf, tagged |-> tg, tagsp |-> sp, emb |-> e, embn |-> en, ptrs |-> ps,
                               dest |-> d, nrows |-> n, strict |-> st, pre |-> pre]
      \/ \E d \in Dests, n \in RowCounts, st \in BOOLEAN, pre \in Pres :
            /\ (d = "one" => pre = 0)
-           /\ shape' = [prim |-> TRUE, nf |-> 1, tagged |-> FALSE, emb |-> "none", embn |-> 0, ptrs |-> {},
+           /\ shape' = [prim |-> TRUE, nf |-> 1, tagged |-> FALSE, tagsp |-> "none", emb |-> "none", embn |-> 0, ptrs |-> {},
                         dest |-> d, nrows |-> n, strict |-> st, pre |-> pre]
 
 PickResult ==
@@ -160,7 +197,7 @@ PickResult ==
               out' = Observation(PrimCase(shape.dest, cid, shape.nrows, nl, shape.strict, shape.pre))
        ELSE \E cs \in ColLists(shape.nf, shape.tagged, shape.emb) :
               \E nl \in 0..(IF shape.nrows = 0 THEN 0 ELSE Len(cs)) :
-                 out' = Observation(StructCase(shape.nf, shape.tagged, shape.emb, shape.embn, shape.ptrs, shape.dest,
+                 out' = Observation(StructCase(shape.nf, shape.tagged, shape.tagsp, shape.emb, shape.embn, shape.ptrs, shape.dest,
                                                cs, shape.nrows, nl, shape.strict, shape.pre))
 
 Next == PickShape \/ PickResult
@@ -169,7 +206,7 @@ Spec == Init /\ [][Next]_vars
 
 (* ---------------------------------------------------------------- properties of the mapping *)
 
-Case == [prim |-> out.prim, nf |-> out.nf, tagged |-> out.tagged, emb |-> out.emb, embn |-> out.embn, ptrs |-> out.ptrs,
+Case == [prim |-> out.prim, nf |-> out.nf, tagged |-> out.tagged, tagsp |-> out.tagsp, emb |-> out.emb, embn |-> out.embn, ptrs |-> out.ptrs,
          dest |-> out.dest, cols |-> out.cols, nrows |-> Len(out.data),
          null |-> (IF \E j \in 1..Len(out.cols) : Len(out.data) > 0 /\ out.data[1][j] = 0
                    THEN CHOOSE j \in 1..Len(out.cols) : out.data[1][j] = 0 ELSE 0),
@@ -221,6 +258,13 @@ FieldsComeFromTheirColumns ==
   picked /\ ~out.prim /\ out.tagged /\ out.emb = "none" /\ out.pre = 0 =>
      \A o \in out.allow : o.k = "rows" =>
         \A r \in 1..Len(o.rows), i \in 1..out.nf : o.rows[r][i] \in {0, Cell(i, r)}
+
+\* options after the column name never change what a query may do, and every field's tag still
+\* names the field's own column
+TagOptionsIgnored ==
+  picked /\ out.tagged =>
+     /\ Allowed(Case) = Allowed([Case EXCEPT !.tagsp = "plain"])
+     /\ \A i \in 1..out.nf : KeyOf(out.tags[i]) = i
 
 NeverEmpty == picked => out.allow # {}
 
